@@ -11,7 +11,7 @@ using namespace sys;
 namespace c18 {
 
 struct Case {
-    int kind;      // 0 opcode sweep, 1 control flow, 2 mmio write + run, 3 dma/ahbm
+    int kind;      // 0 opcode sweep, 1 control flow, 2 mmio write + run, 3 dma/ahbm, 4 opcode x shift-amount register
     u32 a, b, c, d; // parameters
 };
 inline std::string Ser(const Case& k) {
@@ -126,6 +126,21 @@ struct Runner {
                 m.teakra->Run(3);
             }, why);
         }
+        case 4: { // one opcode (a) with the shift-amount register sv = b, shift mode c&1, accumulators at an extreme (c>>1), 1 cycle
+            site = "opcode:" + OpName((u16)k.a);
+            return Guard([&]() {
+                Fresh();
+                m.regs() = states[0];
+                m.regs().sv = (u16)k.b;
+                m.regs().s = k.c & 1;
+                u64 acc = (k.c >> 1) ? 0xFFFFFF8000000001ull : 0x0000007FFFFFFFFFull;
+                m.regs().a[0] = m.regs().a[1] = m.regs().b[0] = m.regs().b[1] = acc;
+                m.regs().pc = 0x1000;
+                m.SetProg(0x1000, (u16)k.a);
+                m.SetProg(0x1001, 0x0028);
+                m.teakra->Run(1);
+            }, why);
+        }
         case 1: { // control-flow instruction form (a) to target class (b), then 4 more cycles
             static const u32 targets[] = {0x00000, 0x00001, 0x3FFFE, 0x3FFFF, 0x20000};
             u32 t = targets[k.b % 5];
@@ -221,6 +236,14 @@ inline std::vector<Case> Cases(bool full_dma) {
                         continue;
                     v.push_back({0, op, e, st, pcsel});
                 }
+            }
+    // (a2) every opcode x the shift-amount register at the boundaries of the 40-bit shifter x shift mode x accumulator sign
+    for (u32 op = 0; op < 0x10000; ++op)
+        for (u32 sv : {40u, 39u, 41u, 0xFFD8u, 0xFFD7u, 0xFFD9u, 63u, 64u, 65u, 0xFFC0u, 0x7FFFu, 0x8000u, 0x8001u, 32u, 0xFFE0u})
+            for (u32 c = 0; c < 4; ++c) {
+                if (sv != 40u && sv != 0xFFD8u && c != 1)
+                    continue; // the full mode x sign product at +-40, one representative elsewhere
+                v.push_back({4, op, sv, c, 0});
             }
     // (b) control flow to the edges
     for (u32 form = 0; form < 10; ++form)
@@ -448,11 +471,12 @@ int main(int argc, char** argv) {
     }
     res.rule = "every case of four families is executed on the real machine built with AddressSanitizer + UBSan + libstdc++ assertions, with the memory "
                "observer rejecting any DSP-memory word address >= 0x40000 before the access; (a) all 65536 opcodes x second words x 4 reachable register states x "
-               "pc at 0x1000 / 0x3FFFE / 0x3FFFF / with prpage=1, 3 cycles each; (b) 10 control-flow forms x 5 edge targets x 4 states, 5 cycles; (c) every one of "
+               "pc at 0x1000 / 0x3FFFE / 0x3FFFF / with prpage=1, 3 cycles each; all 65536 opcodes x 15 boundary values of the shift-amount register (+-39..41, +-63..65, "
+               "+-32, 0x7FFF..0x8001) with both shift modes and accumulator signs at +-40; (b) 10 control-flow forms x 5 edge targets x 4 states, 5 cycles; (c) every one of "
                "the 2048 MMIO offsets x 22 values x both paths, all DMA registers read back, 4 cycles; (d) DMA/AHBM configurations with extreme register values, "
                "address high words {0,1,2,FFFF}^2, spaces, modes, AHBM unit/burst, then a start; acceptable outcomes: return, UnimplementedException, deliberate "
                "assertion; distinct = acceptable outcome classes + violation classes";
-    res.bound = "full products: 65536 opcodes x 3 second words x 4 states x 4 pc classes; 200 control-flow cases; 2048 offsets x 22 values x 2 paths; 16 registers x 5 values x 16 high-word pairs x " + std::string(th ? "1024" : "a fixed quarter of 64") + " mode combinations";
+    res.bound = "full products: 65536 opcodes x 3 second words x 4 states x 4 pc classes; 65536 opcodes x 21 shift-amount cases; 200 control-flow cases; 2048 offsets x 22 values x 2 paths; 16 registers x 5 values x 16 high-word pairs x " + std::string(th ? "1024" : "a fixed quarter of 64") + " mode combinations";
     res.assumptions = {"register states are reachable ones (loop depth <= 4 with consistent flags); arbitrary host-forged states are outside the property",
                        "uninitialised reads are not in ASan's scope; C17's heap-fill comparison covers constructor-uninitialised members"};
     res.AddSample("c18 0 23984 0 0 5 : opcode 5DB0 (mov #0,prpage...) family at pc 0x1000 with prpage=1");
